@@ -1,0 +1,56 @@
+//go:build verif
+
+package monoid
+
+// Contracts for monoid.MergeGoMap (C11, C04), checked by /verif/govc: Combine(a, b) is a new map whose key set is
+// the union of the key sets, with the value of b under every key of b (right bias) and the value of a under the
+// other keys; neither argument is written; Empty() is the empty map.  Associativity and the two identities are
+// stated pointwise (per key q) over the real Combine.
+
+//@ func MergeGoMap() result
+//@   prop C11 C04
+//@   loop 0 invariant Fresh(ret) && verifspec.VisitedCount(a) <= len(a) && verifspec.Visited(a, k) && verifspec.Has(a, k) && Eq(v, a[k])
+//@   loop 0 invariant forall q K :: verifspec.Visited(a, q) && !Eq(q, k) ==> verifspec.Has(ret, q) && Eq(ret[q], a[q])
+//@   loop 0 invariant forall q K :: verifspec.Has(ret, q) ==> verifspec.Visited(a, q) && !Eq(q, k)
+//@   loop 0 invariant forall q K :: verifspec.Visited(a, q) ==> verifspec.Has(a, q)
+//@   loop 0 decreases len(a) - verifspec.VisitedCount(a)
+//@   loop 1 invariant Fresh(ret) && verifspec.VisitedCount(b) <= len(b) && verifspec.Visited(b, k) && verifspec.Has(b, k) && Eq(v, b[k])
+//@   loop 1 invariant forall q K :: verifspec.Visited(b, q) && !Eq(q, k) ==> verifspec.Has(ret, q) && Eq(ret[q], b[q])
+//@   loop 1 invariant forall q K :: !(verifspec.Visited(b, q) && !Eq(q, k)) ==> verifspec.Has(ret, q) == verifspec.Has(a, q) && (verifspec.Has(a, q) ==> Eq(ret[q], a[q]))
+//@   loop 1 invariant forall q K :: verifspec.Visited(b, q) ==> verifspec.Has(b, q)
+//@   loop 1 decreases len(b) - verifspec.VisitedCount(b)
+//
+//@ lemma mergeGoMapDef[K comparable, V any](a, b map[K]V, q K)
+//@   prop C11 C04
+//@   ensures verifspec.Has(MergeGoMap[K, V]().Combine(a, b), q) == (verifspec.Has(a, q) || verifspec.Has(b, q))
+//@   tag keysAreUnion
+//@   ensures verifspec.Has(b, q) ==> Eq(MergeGoMap[K, V]().Combine(a, b)[q], b[q])
+//@   tag rightBias
+//@   ensures !verifspec.Has(b, q) && verifspec.Has(a, q) ==> Eq(MergeGoMap[K, V]().Combine(a, b)[q], a[q])
+//@   tag leftKept
+//@   ensures Fresh(MergeGoMap[K, V]().Combine(a, b))
+//@   tag fresh
+//@   ensures len(MergeGoMap[K, V]().Empty()) == 0 && !verifspec.Has(MergeGoMap[K, V]().Empty(), q)
+//@   tag emptyIsEmpty
+//
+//@ lemma mergeGoMapIdentity[K comparable, V any](a map[K]V, q K)
+//@   prop C11
+//@   ensures verifspec.Has(MergeGoMap[K, V]().Combine(MergeGoMap[K, V]().Empty(), a), q) == verifspec.Has(a, q)
+//@   tag leftIdentityKeys
+//@   ensures verifspec.Has(a, q) ==> Eq(MergeGoMap[K, V]().Combine(MergeGoMap[K, V]().Empty(), a)[q], a[q])
+//@   tag leftIdentityValues
+//@   ensures verifspec.Has(MergeGoMap[K, V]().Combine(a, MergeGoMap[K, V]().Empty()), q) == verifspec.Has(a, q)
+//@   tag rightIdentityKeys
+//@   ensures verifspec.Has(a, q) ==> Eq(MergeGoMap[K, V]().Combine(a, MergeGoMap[K, V]().Empty())[q], a[q])
+//@   tag rightIdentityValues
+//
+//@ lemma mergeGoMapAssoc[K comparable, V any](a, b, c map[K]V, q K)
+//@   prop C11
+//@   ensures verifspec.Has(MergeGoMap[K, V]().Combine(MergeGoMap[K, V]().Combine(a, b), c), q) == verifspec.Has(MergeGoMap[K, V]().Combine(a, MergeGoMap[K, V]().Combine(b, c)), q)
+//@   tag assocKeys
+//
+//@ lemma mergeGoMapAssocValues[K comparable, V any](a, b, c map[K]V, q K)
+//@   prop C11
+//@   option tier=thorough steps=1600000 timeout=120
+//@   ensures verifspec.Has(a, q) || verifspec.Has(b, q) || verifspec.Has(c, q) ==> Eq(MergeGoMap[K, V]().Combine(MergeGoMap[K, V]().Combine(a, b), c)[q], MergeGoMap[K, V]().Combine(a, MergeGoMap[K, V]().Combine(b, c))[q])
+//@   tag assocValues
